@@ -352,6 +352,7 @@ fn check10_inner(ctx: &Ctx, c: &Case10, dir: &std::path::Path, probe: &mut Probe
         if !writers.is_empty() {
             let i = writers[vkit::pick_idx(*at, writers.len())];
             check_fault(ctx, c, &live, *target, i, dir, probe)?;
+            check_fault_then_continue(ctx, c, (*at & 1) as u8, i, dir, probe)?;
         }
     }
     Ok(())
@@ -408,6 +409,88 @@ fn check_fault(ctx: &Ctx, c: &Case10, live: &Live, target: u8, i: usize, dir: &s
             let (facts, _cont) = continue_script(c, host, &copy, b, &live.subs, from, live.ops_done)?;
             vensure!(modulo_cycle_stamp(&facts) == modulo_cycle_stamp(&live.final_facts), "C10/fault/continuation-differs-from-uninterrupted-run", "{what}\n continued:     {facts:?}\n uninterrupted: {:?}", live.final_facts);
         }
+        Ok(())
+    })();
+    let _ = std::fs::remove_dir_all(&copy);
+    r
+}
+
+/// Admit one causal anchor at whatever basis the live host reports (the application-facing way
+/// to pin "everything durable up to here"). Ok(false) = the host lawfully refused.
+fn admit_anchor_at_current_basis(host: &mut warp_core::TrustedRuntimeHost, label: &str) -> Result<bool, String> {
+    use warp_core::{CausalAnchorAdmissionRequest, CausalAnchorAppRootRole, CausalAnchorCasRole, CausalAnchorPurpose, CausalAnchorRoot, CausalAnchorRootSupportGrant, CausalAnchorRootSupportPolicy, CausalAnchorSubject, CAUSAL_ANCHOR_SCHEMA_VERSION};
+    let basis = match host.app().current_causal_anchor_basis() {
+        Ok(b) => b,
+        Err(e) => return Err(format!("no basis: {e:?}")),
+    };
+    let request = CausalAnchorAdmissionRequest {
+        schema_version: CAUSAL_ANCHOR_SCHEMA_VERSION,
+        subject: CausalAnchorSubject::new("verif", "Worldline", "worldline:0"),
+        basis_frontier: basis,
+        retained_roots: vec![CausalAnchorRoot::AppSubjectRoot { app_id: "verif".to_owned(), subject_kind: "Head".to_owned(), id: format!("head:{label}"), role: CausalAnchorAppRootRole::Authority }],
+        materialization_roots: vec![CausalAnchorRoot::CasObject { id: *blake3::hash(label.as_bytes()).as_bytes(), role: CausalAnchorCasRole::Materialization }],
+        purpose: CausalAnchorPurpose::UserSave,
+    };
+    let mut grants = Vec::new();
+    grants.extend(request.retained_roots.iter().cloned().map(|r| CausalAnchorRootSupportGrant::retained(request.subject.clone(), r)));
+    grants.extend(request.materialization_roots.iter().cloned().map(|r| CausalAnchorRootSupportGrant::materialization(request.subject.clone(), r)));
+    host.install_causal_anchor_root_support_policy(CausalAnchorRootSupportPolicy::new(grants));
+    match host.app().admit_causal_anchor(request) {
+        Ok(_) => Ok(true),
+        Err(_) => Ok(false),
+    }
+}
+
+/// A store fault AFTER the commit became durable, survived in the same process: the operation is
+/// acknowledged, the host keeps working (here: it admits a causal anchor at the basis it reports
+/// and runs the rest of the script), then stops. Everything it acknowledged must be recoverable.
+fn check_fault_then_continue(ctx: &Ctx, c: &Case10, target: u8, i: usize, dir: &std::path::Path, probe: &mut Probe) -> Check {
+    let t = [FilesystemWalFaultTarget::CommitMarkerSynced, FilesystemWalFaultTarget::PublishManifest][(target % 2) as usize];
+    let root = dir.join("fault-continue");
+    let mut run = run_script(c, &root, i, probe)?;
+    if run.snaps.len() - 1 < i {
+        return Ok(());
+    }
+    run.host.inject_runtime_wal_filesystem_fault_for_test(FilesystemWalFaultPlan::fail_next(t)).map_err(|e| Fail::new("C10/harness/inject", format!("{e:?}")))?;
+    let tag = run.apply(&c.ops[i]);
+    let what = format!("store fault {t:?} armed before operation {i} {:?} (-> {tag}), host kept running", c.ops[i]);
+    if let Some(b) = tag.strip_prefix("BAD:") {
+        vfail!(format!("C10/fault/{}", b.split(':').next().unwrap_or("bad")), "{what}");
+    }
+    let anchored = admit_anchor_at_current_basis(&mut run.host, &format!("after-op-{i}"));
+    match &anchored {
+        Ok(true) => probe.class(format!("fault-continue:{t:?}:anchor-admitted")),
+        Ok(false) => probe.class(format!("fault-continue:{t:?}:anchor-refused")),
+        Err(_) => probe.class(format!("fault-continue:{t:?}:no-basis")),
+    }
+    for (j, op) in c.ops.iter().enumerate().skip(i + 1) {
+        let tg = run.apply(op);
+        if let Some(b) = tg.strip_prefix("BAD:") {
+            vfail!(format!("C10/fault/{}", b.split(':').next().unwrap_or("bad")), "{what}; then operation {j} {op:?}");
+        }
+        if tg.starts_with("err:") {
+            break;
+        }
+    }
+    let acknowledged = run.facts();
+    let subs = run.subs.clone();
+    let seg = segment_bytes(&root);
+    let side = read_side_files(&root);
+    drop(run);
+    let copy = ctx.fast_scratch("c10-fault-continue-copy");
+    write_root(&copy, &seg, &side);
+    let r = (|| -> Check {
+        let mut host = open_host(&c.seed, &copy).map_err(|e| Fail::new("C10/fault/reopen-after-acknowledged-work-failed", format!("{what}: {e}")))?;
+        let got = facts_of(&mut host, c.seed.worldlines.len(), &subs);
+        // staged-but-undecided submissions are volatile; everything else acknowledged must be there
+        let durable = |f: &Facts| -> (Vec<(u64, [u8; 32])>, Vec<Vec<([u8; 32], [u8; 32], [u8; 32])>>) { (f.lanes.clone(), f.chains.clone()) };
+        vensure!(durable(&got) == durable(&acknowledged), "C10/fault/acknowledged-fact-not-recovered", "{what}\n recovered: {:?}\n acknowledged: {:?}", durable(&got), durable(&acknowledged));
+        for ((id, before), (_, after)) in acknowledged.outcomes.iter().zip(got.outcomes.iter()) {
+            vensure!(before.starts_with("Pending") || before == after, "C10/fault/acknowledged-outcome-not-recovered", "{what}: submission {:?}: {before} -> {after}", &id[..4]);
+        }
+        drop(host);
+        // and once more (the recovered host wrote nothing, the log must stay adoptable)
+        open_host(&c.seed, &copy).map_err(|e| Fail::new("C10/fault/reopen-after-acknowledged-work-failed", format!("{what}: second reopen: {e}")))?;
         Ok(())
     })();
     let _ = std::fs::remove_dir_all(&copy);
